@@ -114,18 +114,29 @@ func runCases(t *testing.T, in replayIn, res *hx.Result, tw *hx.TraceWriter) {
 		}
 		applyStub(in.Stub, s)
 		o := s.run()
+		if k, _ := judge(c, o); k == "honest-failed" && (o.Stalled || len(c.Faults) > 0) && in.Stub == "" {
+			// real timing was involved (stall watchdog): retry once without it before reporting
+			res.Count("retried", 1)
+			s, _ = e.newSession(c)
+			s.noWatchdog = true
+			o = s.run()
+		}
 		if len(o.Unknown) > 0 {
 			res.Note("case %s: %v", c.Key(), o.Unknown)
 			res.Count("unknown_faults", len(o.Unknown))
 		}
 		eff := effective(c, o)
 		for _, f := range c.Faults {
-			if c.Classes[f.String()] == "unbind" && !containsFault(eff, f) {
+			if len(c.Faults) == 1 && c.Classes[f.String()] == "unbind" && !containsFault(eff, f) {
 				res.Count("noop_unbind", 1)
 				res.Note("catalog entry without effect: %s %s", c.Key(), f)
 			}
 		}
 		res.Eval(c.Key())
+		if o.Millis > float64(hx.EnvInt("VERIF_SLOW_MS", 3000)) {
+			res.Count("slow_cases", 1)
+			res.Note("slow case (%.0f ms): %s -> %s %s", o.Millis, c.Key(), o.Outcome, o.Err)
+		}
 		res.Count("outcome_"+o.Outcome, 1)
 		res.Count("rpc_"+c.RPC, 1)
 		if len(eff) < len(c.Faults) {
